@@ -1,5 +1,5 @@
 """C01 — frames that arrive together stay together: no mixed or partial frame sets."""
-from .. import protocol
+from .. import protocol, pipeline
 
 ID = 'C01'
 MODULES = ['OFModel.Zmq.Receiver', 'OFModel.Gen.Facts']
@@ -14,3 +14,4 @@ TRUSTED = ['poll-granular transcription of ZMQReceiver (lean/OFModel/Zmq/Receive
 def run(ctx):
     n = 12000 if ctx.thorough else (4000 if ctx.escalate else 1200)
     protocol.recv_campaign(ctx, 'C01', n, ['wf', 'wf', 'adv', 'adv', 'bal'])
+    if not ctx.replay: pipeline.campaign_sets(ctx, 'C01', 400 if ctx.thorough else 40)
